@@ -39,78 +39,273 @@ Section Rec.
     - injection H as <- <-. eapply copy_file_info_spec; eauto.
   Qed.
 
-  (* ---- prep_target ---- *)
-  Lemma prep_target_spec s s' r cs d x o fi : Tgt (s_fs s) cs d x ->
-    prep_target c o (tpath cs x) fi s = (s', r) ->
-    stays d s s' /\
-    (forall tfi, r = inl tfi -> kind_is_dir fi = false -> absent (s_fs s') d x).
+  (* ---- strings: a path at or below another one, component-wise ---- *)
+  Lemma forget_path_inv l m : Forall nm l -> Forall nm m -> forget_path (render l) (render m) = true ->
+    exists r, m = l ++ r.
   Proof.
-    intros T H. unfold prep_target in H. rewrite bind_run in H.
-    destruct (lstat_opt_nd c (tpath cs x) s) as [s1 [tfi|e]] eqn:E1.
-    2:{ injection H as <- <-. destruct (lstat_opt_nd_spec c f0 dr dcs s s1 _ cs d x T E1) as (F1 & L1 & _).
-        split; [apply stays_same; auto; apply T|discriminate]. }
-    destruct (lstat_opt_nd_spec c f0 dr dcs s s1 _ cs d x T E1) as (F1 & L1 & P1).
+    intros Hl Hm H. unfold forget_path in H. apply orb_true_iff in H. destruct H as [H|H].
+    - apply bytes_eqb_eq in H. apply render_inj in H; auto. exists []. rewrite app_nil_r. auto.
+    - apply has_prefix_app in H. destruct H as [rest E]. unfold render in E.
+      assert (Ej : joinc m = joinc l ++ sep :: rest).
+      { simpl in E. rewrite <- app_assoc in E. simpl in E. injection E as E. exact E. }
+      destruct m as [|m0 m'].
+      + exfalso. simpl in Ej. destruct (joinc l); discriminate.
+      + assert (Ec : comps (joinc (m0 :: m')) = comps (joinc l ++ sep :: rest)) by (rewrite Ej; reflexivity).
+        rewrite comps_app_sep_gen in Ec.
+        rewrite comps_joinc in Ec by (try discriminate; apply Forall_nm_nosep; auto).
+        destruct l as [|l0 l'].
+        * exfalso. simpl in Ec. inversion Ec; subst. inversion Hm as [|? ? Hx _]; subst. apply (nm_nonempty _ Hx). reflexivity.
+        * rewrite comps_joinc in Ec by (try discriminate; apply Forall_nm_nosep; auto).
+          exists (comps rest). exact Ec.
+  Qed.
+
+  (* ---- the parentDirs stack ---- *)
+  Definition uncopied (l : list (bytes * bytes * bool)) : list bytes :=
+    map (fun e => snd (fst e)) (filter (fun e => negb (snd e)) l).
+  Fixpoint pend_paths (cs pend : list bytes) : list bytes :=
+    match pend with
+    | [] => []
+    | p :: r => render (dcs ++ cs ++ [p]) :: pend_paths (cs ++ [p]) r
+    end.
+  Definition allc (l : list (bytes * bytes * bool)) : list (bytes * bytes * bool) := map (fun e => (fst e, true)) l.
+
+  Lemma uncopied_app l1 l2 : uncopied (l1 ++ l2) = uncopied l1 ++ uncopied l2.
+  Proof. unfold uncopied. rewrite filter_app, map_app. reflexivity. Qed.
+  Lemma uncopied_allc l : uncopied (allc l) = [].
+  Proof. induction l as [|e l IH]; auto. Qed.
+  Lemma allc_app l1 l2 : allc (l1 ++ l2) = allc l1 ++ allc l2.
+  Proof. apply map_app. Qed.
+  Lemma allc_idem l : allc (allc l) = allc l.
+  Proof. unfold allc. rewrite map_map. reflexivity. Qed.
+  Lemma removelast_allc l : removelast (allc l) = allc (removelast l).
+  Proof. induction l as [|e l IH]; auto. simpl. destruct l; auto. simpl in *. rewrite IH. reflexivity. Qed.
+  Lemma allc_id l : uncopied l = [] -> allc l = l.
+  Proof.
+    induction l as [|[[a b0] [|]] l IH]; intros H; auto.
+    - simpl. rewrite IH; auto.
+    - discriminate.
+  Qed.
+  Lemma pend_paths_app cs p1 p2 : pend_paths cs (p1 ++ p2) = pend_paths cs p1 ++ pend_paths (cs ++ p1) p2.
+  Proof.
+    revert cs. induction p1 as [|p p1 IH]; intros cs; simpl; [rewrite app_nil_r; auto|].
+    rewrite IH. rewrite <- app_assoc. reflexivity.
+  Qed.
+
+  (* ---- removeTargetIfNeeded + forgetLinkSources + ensureEmptyFileTarget ---- *)
+  Lemma prep_rest_spec s s' r cs d x o fi tfi : Tgt (s_fs s) cs d x ->
+    (tfi = None -> forgotten s (tpath cs x)) ->
+    prep_rest c o (tpath cs x) fi tfi s = (s', r) ->
+    stays d s s' /\ s_parents s' = s_parents s /\
+    (r = inl tt -> kind_is_dir fi = false -> absent (s_fs s') d x).
+  Proof.
+    intros T Hf H. unfold prep_rest in H. rewrite bind_run in H.
     assert (Hd : is_dir (s_fs s) d = true) by (eapply tgt_dir; eauto).
-    assert (S1 : stays d s s1) by (apply stays_same; auto; apply T).
-    assert (T1 : Tgt (s_fs s1) cs d x) by (rewrite F1; auto).
-    rewrite bind_run in H.
-    destruct (remove_target_if_needed c o (tpath cs x) fi tfi s1) as [s2 [[]|e]] eqn:E2.
-    2:{ injection H as <- <-. destruct (remove_target_spec c f0 dr dcs s1 s2 _ cs d x o fi tfi T1 E2) as (S2 & _).
-        split; [eapply stays_trans; eauto|discriminate]. }
-    destruct (remove_target_spec c f0 dr dcs s1 s2 _ cs d x o fi tfi T1 E2) as (S2 & F2).
-    assert (S12 : stays d s s2) by (eapply stays_trans; eauto).
+    assert (Hpar : forall a b0, stays d a b0 -> s_parents b0 = s_parents a) by (intros a b0 (_ & _ & _ & _ & Q); exact Q).
+    destruct (remove_target_if_needed c o (tpath cs x) fi tfi s) as [s2 [[]|e]] eqn:E2.
+    2:{ injection H as <- <-. destruct (remove_target_spec c f0 dr dcs s s2 _ cs d x o fi tfi T E2) as (S2 & P2).
+        split; auto. split; [apply Hpar; auto|discriminate]. }
+    destruct (remove_target_spec c f0 dr dcs s s2 _ cs d x o fi tfi T E2) as (S2 & P2).
     assert (T2 : Tgt (s_fs s2) cs d x) by (eapply tgt_stays; eauto).
-    rewrite bind_run in H.
     destruct (kind_is_dir fi) eqn:Ek.
-    - cbn [ret] in H. injection H as <- <-. split; auto. intros; discriminate.
+    - cbn [ret] in H. injection H as <- <-. split; auto. split; [apply Hpar; auto|]. intros; discriminate.
     - rewrite bind_run in H.
-      (* the name is absent before remove_target_if_needed did nothing, or forgotten now *)
       assert (Hpre : forall s3, (match tfi with Some _ => forget_links (tpath cs x) | None => ret tt end) s2 = (s3, inl tt) ->
-                stays d s2 s3 /\ s_fs s3 = s_fs s2 /\ (forgotten s3 (tpath cs x) \/ absent (s_fs s3) d x)).
+                stays d s2 s3 /\ s_fs s3 = s_fs s2 /\ forgotten s3 (tpath cs x)).
       { intros s3 E3. destruct tfi as [ti|].
         - destruct (forget_links_spec c f0 dr dcs (tpath cs x) s2 d (tg_ctx _ _ _ _ _ _ _ _ T2)) as (G1 & G2 & G3).
           rewrite E3 in G1, G2, G3. cbn [fst] in *. auto.
-        - cbn [ret] in E3. injection E3 as <-. split; [apply stays_refl; apply T2|]. split; auto. right.
-          (* tfi = None: remove_target_if_needed returned at once *)
-          unfold remove_target_if_needed in E2.
-          destruct (negb (o_always_replace o)); cbn [ret] in E2; injection E2 as <-; rewrite F1; exact P1. }
+        - cbn [ret] in E3. injection E3 as <-. split; [apply stays_refl; apply T2|]. split; auto. }
       destruct ((match tfi with Some _ => forget_links (tpath cs x) | None => ret tt end) s2) as [s3 [[]|e]] eqn:E3.
       2:{ exfalso. destruct tfi; [rewrite forget_links_run in E3|cbn [ret] in E3]; discriminate. }
-      destruct (Hpre s3 eq_refl) as (S3 & F3 & Hor).
+      destruct (Hpre s3 eq_refl) as (S3 & F3 & Hfg).
       assert (T3 : Tgt (s_fs s3) cs d x) by (rewrite F3; auto).
       destruct (ensure_empty_file_target c (tpath cs x) s3) as [s4 [[]|e]] eqn:E4.
-      + destruct (ensure_empty_spec c f0 dr dcs s3 s4 _ cs d x T3 Hor E4) as (S4 & _ & P4).
-        cbn [ret] in H. injection H as <- <-.
-        split; [eapply stays_trans; [exact Hd|exact S12|]; eapply stays_trans; [eapply tgt_dir; eauto|exact S3|exact S4]|].
-        intros _ _ _. auto.
-      + destruct (ensure_empty_spec c f0 dr dcs s3 s4 _ cs d x T3 Hor E4) as (S4 & _ & _).
+      + destruct (ensure_empty_spec c f0 dr dcs s3 s4 _ cs d x T3 (or_introl Hfg) E4) as (S4 & _ & P4).
         injection H as <- <-.
-        split; [eapply stays_trans; [exact Hd|exact S12|]; eapply stays_trans; [eapply tgt_dir; eauto|exact S3|exact S4]|].
-        intros; discriminate.
+        assert (S24 : stays d s s4) by (eapply stays_trans; [exact Hd|exact S2|]; eapply stays_trans; [eapply tgt_dir; eauto|exact S3|exact S4]).
+        split; [exact S24|]. split; [apply Hpar; exact S24|]. intros _ _. apply P4. reflexivity.
+      + destruct (ensure_empty_spec c f0 dr dcs s3 s4 _ cs d x T3 (or_introl Hfg) E4) as (S4 & _ & _).
+        injection H as <- <-.
+        assert (S24 : stays d s s4) by (eapply stays_trans; [exact Hd|exact S2|]; eapply stays_trans; [eapply tgt_dir; eauto|exact S3|exact S4]).
+        split; [exact S24|]. split; [apply Hpar; exact S24|]. intros; discriminate.
   Qed.
 
-  (* ---- the loop over the children ---- *)
-  Lemma each_m_spec g d1 cs1 :
-    (forall n s s' r, okn n -> Tgt (s_fs s) cs1 d1 n -> lok s -> g n s = (s', r) -> stays_ok d1 s s' r) ->
-    forall ns, Forall okn ns -> forall s s' r,
-      Ctx (s_fs s) -> chain (s_fs s) dr cs1 d1 -> Forall nm cs1 -> Forall nonul cs1 -> lok s ->
-      each_m g ns s = (s', r) -> stays_ok d1 s s' r.
+  (* the target Lstat said "nothing there": no recorded hard-link path lies at or below the target *)
+  Lemma tfi_none_forgotten s s1 L x : Ctx (s_fs s) -> lok s ->
+    Forall nm L -> Forall nonul L -> nm x -> nonul x ->
+    lstat_opt_nd c (render (dcs ++ L ++ [x])) s = (s1, inl None) -> forgotten s (render (dcs ++ L ++ [x])).
   Proof.
-    intros Hg. induction 1 as [|n ns Hn Hns IH]; intros s s' r C Hc H1 H2 L H.
-    - cbn [each_m ret] in H. injection H as <- <-. apply stays_stays_ok. apply stays_refl; auto.
-    - cbn [each_m] in H. rewrite bind_run in H.
+    intros C Lk HL HLn Hx Hxn H e He. destruct (forget_path (render (dcs ++ L ++ [x])) (snd e)) eqn:E; auto. exfalso.
+    pose proof (cx_dcs _ _ _ _ _ C) as Hd.
+    destruct (link_ok_tgt c f0 dr dcs _ _ C (Lk e He)) as (cs1 & x1 & d1 & i1 & Ep & T1 & Hb1 & Hi1 & (data & m & Hg1)).
+    rewrite Ep in E. unfold FsCopySafeP.tpath in E.
+    assert (Hm : Forall nm (dcs ++ cs1 ++ [x1])).
+    { apply Forall_app; split; auto. apply Forall_app; split; [apply T1|constructor; [apply T1|constructor]]. }
+    assert (Hl : Forall nm (dcs ++ L ++ [x])) by (apply Forall_app; split; auto; apply Forall_app; split; auto).
+    destruct (forget_path_inv _ _ Hl Hm E) as (r & Er).
+    rewrite <- !app_assoc in Er. apply app_inv_head in Er.
+    (* the target names something that exists *)
+    assert (Hex : exists dL i n, chain (s_fs s) dr L dL /\ blookup x (dents (s_fs s) dL) = Some i /\ get (s_fs s) i = Some n).
+    { destruct r as [|r0 r' _] using rev_ind.
+      - rewrite app_nil_r in Er. apply app_inj_tail in Er. destruct Er as [-> ->].
+        exists d1, i1. eexists. split; [apply T1|]. split; eauto.
+      - rewrite !app_assoc in Er. apply app_inj_tail in Er. destruct Er as [Ec _].
+        pose proof (tg_chain _ _ _ _ _ _ _ _ T1) as Hc1. rewrite Ec in Hc1. rewrite <- app_assoc in Hc1.
+        destruct (chain_split _ L dr ([x] ++ r') d1 Hc1) as (dL & P & Q).
+        inversion Q as [|? ? i ? ? Bx Dx Rx]; subst.
+        unfold is_dir, dir_of in Dx. destruct (get (s_fs s) i) as [n|] eqn:Eg; [|discriminate].
+        exists dL, i, n. auto. }
+    destruct Hex as (dL & i & n & HcL & Hb & Hg).
+    assert (T : Tgt (s_fs s) L dL x) by (constructor; auto).
+    destruct (lstat_opt_nd_spec c f0 dr dcs s s1 _ L dL x T H) as (_ & _ & Hab).
+    eapply absent_not_some; eauto.
+  Qed.
+
+  (* ---- createParentDirs ---- *)
+  Lemma stays_below d d1 q s s' : chain (s_fs s) d q d1 -> stays d1 s s' -> stays d s s'.
+  Proof. intros Hq (C & A & L & K & P). split; auto. split; auto. eapply above_mono; eauto. Qed.
+
+  Lemma stays_chain d s s' a p e q : stays d s s' -> chain (s_fs s) a p e -> chain (s_fs s) e q d -> chain (s_fs s') a p e.
+  Proof. intros (_ & A & _) H1 H2. eapply A; eauto. Qed.
+
+  Lemma pend_paths_nil cs pend : pend_paths cs pend = [] -> pend = [].
+  Proof. destruct pend; [auto|discriminate]. Qed.
+
+  Lemma create_parents_go_spec o ow : forall todo done cs d pend s s' r,
+    Ctx (s_fs s) -> chain (s_fs s) dr cs d -> Forall nm cs -> Forall nonul cs -> Forall nm pend -> Forall nonul pend ->
+    uncopied todo = pend_paths cs pend ->
+    create_parents_go c o ow todo done s = (s', r) ->
+    stays d s s' /\ s_links s' = s_links s /\
+    (forall ps', r = inl ps' -> ps' = done ++ allc todo /\ exists d', chain (s_fs s') dr (cs ++ pend) d').
+  Proof.
+    induction todo as [|[[sp dp] copied] rest IH]; intros done cs d pend s s' r C Hc Hcs Hcn Hp Hpn Hu H.
+    - cbn [create_parents_go ret] in H. injection H as <- <-. simpl in Hu. symmetry in Hu. apply pend_paths_nil in Hu. subst pend.
+      split; [apply stays_refl; auto|]. split; [reflexivity|]. intros ps' E. inversion E; subst. rewrite !app_nil_r. split; auto. eauto.
+    - cbn [create_parents_go] in H. destruct copied.
+      + assert (Hu' : uncopied rest = pend_paths cs pend) by exact Hu.
+        destruct (IH _ cs d pend s s' r C Hc Hcs Hcn Hp Hpn Hu' H) as (S & EL & P). split; auto. split; auto.
+        intros ps' E. destruct (P ps' E) as (-> & Hd'). split; auto. rewrite <- app_assoc. reflexivity.
+      + assert (Hd : is_dir (s_fs s) d = true) by (eapply chain_end_dir; eauto).
+        destruct pend as [|p pend']; [discriminate|]. simpl in Hu. injection Hu as Edp Hu'.
+        inversion Hp as [|? ? Hp1 Hp']; subst. inversion Hpn as [|? ? Hpn1 Hpn']; subst.
+        rewrite bind_run, sys_run in H. cbn [fst snd] in H. rewrite sys_stat_fs in H.
+        assert (Hfail : forall s1 (r1 : list (bytes * bytes * bool) + N), s_fs s1 = s_fs s -> s_links s1 = s_links s -> s_parents s1 = s_parents s ->
+                  (forall a, r1 <> inl a) ->
+                  stays d s s1 /\ s_links s1 = s_links s /\ (forall ps', r1 = inl ps' -> ps' = done ++ allc ((sp, render (dcs ++ cs ++ [p]), false) :: rest) /\
+                                     exists d', chain (s_fs s1) dr (cs ++ p :: pend') d')).
+        { intros s1 r1 E1 E2 E3 Hr. split; [apply stays_same; auto|]. split; auto. intros ps' E. exfalso. eapply Hr; eauto. }
+        destruct (snd (sys_stat c (s_fs s) sp)) as [|e|si sfi| | |];
+          try (unfold fail in H; injection H as <- <-; apply Hfail; auto; discriminate).
+        rewrite bind_run, log_read_run in H. cbn [s_fs s_links s_parents s_reads] in H.
+        set (s1 := {| s_fs := s_fs s; s_links := s_links s; s_parents := s_parents s; s_reads := si :: s_reads s |}) in H.
+        destruct (negb (kind_is_dir sfi)); [unfold fail in H; injection H as <- <-; apply Hfail; auto; discriminate|].
+        rewrite bind_run in H.
+        assert (T1 : Tgt (s_fs s1) cs d p) by (constructor; auto).
+        assert (S1 : stays d s s1) by (apply stays_same; auto).
+        change (render (dcs ++ cs ++ [p])) with (tpath cs p) in H.
+        destruct (copy_directory_only c (tpath cs p) sfi ow s1) as [s2 [created|e]] eqn:E2.
+        2:{ injection H as <- <-. destruct (copy_directory_only_spec c f0 dr dcs s1 s2 _ cs d p sfi ow T1 E2) as (S2 & EL2 & _).
+            split; [eapply stays_trans; [exact Hd|exact S1|exact S2]|split; [exact EL2|discriminate]]. }
+        destruct (copy_directory_only_spec c f0 dr dcs s1 s2 _ cs d p sfi ow T1 E2) as (S2 & EL2 & P2).
+        destruct (P2 created eq_refl) as (d1 & Hb1 & Hd1).
+        assert (T2 : Tgt (s_fs s2) cs d p) by (eapply tgt_stays; eauto).
+        assert (Hc2 : chain (s_fs s2) dr (cs ++ [p]) d1) by (eapply chain_snoc; eauto; apply T2).
+        assert (Hq2 : chain (s_fs s2) d [p] d1) by (econstructor; eauto; constructor; auto).
+        assert (S12 : stays d s s2) by (eapply stays_trans; [exact Hd|exact S1|exact S2]).
+        rewrite bind_run in H.
+        (* metadata of a created parent *)
+        assert (Hmeta : forall s3 r3, (if created then copy_file_info c o sfi (tpath cs p) ;;; copy_xattrs c (tpath cs p) sp else ret tt) s2 = (s3, r3) ->
+                  mstep s2 s3).
+        { intros s3 r3 E3. destruct created; [|cbn [ret] in E3; inversion E3; subst; apply mstep_refl; apply T2].
+          assert (Hn : names_ss (s_fs s2) d p d1).
+          { split; auto. eapply (chain_SS f0 dr (s_fs s2)); [eapply tgt_inv; eauto|exact Hc2|eapply ctx_dr_SS; apply T2]. }
+          assert (Hl : kind_is_link sfi = false -> FsP.is_link (s_fs s2) d1 = false).
+          { intros _. unfold FsP.is_link. unfold is_dir, dir_of in Hd1. destruct (get (s_fs s2) d1) as [[[? ?|?|?|? ?] ?]|]; auto; discriminate. }
+          rewrite bind_run in E3.
+          destruct (copy_file_info c o sfi (tpath cs p) s2) as [s2' [[]|e]] eqn:E4.
+          - pose proof (copy_file_info_spec c f0 dr dcs s2 s2' _ cs d p d1 o sfi T2 Hn Hl E4) as M4.
+            eapply mstep_trans; [exact M4|].
+            eapply copy_xattrs_spec; [eapply mstep_tgt; eauto|eapply mstep_names; eauto|eauto].
+          - inversion E3; subst. eapply copy_file_info_spec; eauto. }
+        destruct ((if created then copy_file_info c o sfi (tpath cs p) ;;; copy_xattrs c (tpath cs p) sp else ret tt) s2) as [s3 [[]|e]] eqn:E3.
+        2:{ injection H as <- <-. pose proof (Hmeta s3 _ eq_refl) as M3. split; [eapply stays_trans; [exact Hd|exact S12|apply mstep_stays; eauto]|].
+            split; [|discriminate]. destruct M3 as (_ & E & _). rewrite E. exact EL2. }
+        pose proof (Hmeta s3 _ eq_refl) as M3.
+        assert (S23 : stays d s2 s3) by (apply mstep_stays; auto).
+        assert (Hc3 : chain (s_fs s3) dr (cs ++ [p]) d1).
+        { eapply (stays_chain d1 s2 s3); [apply mstep_stays; exact M3|exact Hc2|]. constructor; auto. }
+        assert (C3 : Ctx (s_fs s3)) by apply S23.
+        assert (Hu3 : uncopied rest = pend_paths (cs ++ [p]) pend') by exact Hu'.
+        destruct (IH (done ++ [(sp, tpath cs p, true)]) (cs ++ [p]) d1 pend' s3 s' r C3 Hc3) as (S4 & EL4 & P4); auto;
+          try (apply Forall_app; split; auto).
+        assert (Hq3 : chain (s_fs s3) d [p] d1).
+        { eapply (stays_chain d1 s2 s3); [apply mstep_stays; exact M3|exact Hq2|]. constructor; auto. }
+        split; [|split].
+        * eapply stays_trans; [exact Hd|exact S12|]. eapply stays_trans; [eapply tgt_dir; eauto|exact S23|].
+          eapply stays_below; eauto.
+        * destruct M3 as (_ & E & _). rewrite EL4, E. exact EL2.
+        * intros ps' E. destruct (P4 ps' E) as (-> & d' & Hd'). split.
+          -- rewrite <- app_assoc. reflexivity.
+          -- exists d'. rewrite <- app_assoc in Hd'. exact Hd'.
+  Qed.
+
+  Definition setp (s : cst) (l : list (bytes * bytes * bool)) : cst :=
+    {| s_fs := s_fs s; s_links := s_links s; s_parents := l; s_reads := s_reads s |}.
+  Lemma get_parents_run s : get_parents s = (s, inl (s_parents s)). Proof. reflexivity. Qed.
+  Lemma set_parents_run l s : set_parents l s = (setp s l, inl tt). Proof. reflexivity. Qed.
+  Lemma push_parent_run sp dp cp s : push_parent sp dp cp s = (setp s (s_parents s ++ [(sp, dp, cp)]), inl tt).
+  Proof. reflexivity. Qed.
+  Lemma pop_parent_run s : pop_parent s = (setp s (removelast (s_parents s)), inl tt).
+  Proof. reflexivity. Qed.
+
+  (* a step that may rewrite the parentDirs stack *)
+  Lemma stays_ok_setp {A} d s l (r : A + N) : Ctx (s_fs s) -> stays_ok d s (setp s l) r.
+  Proof. intros C. split; [exact C|]. split; [apply above_refl|]. split; [auto|apply keeps_new_refl]. Qed.
+
+  Lemma create_parent_dirs_spec o ow cs d pend s s' r :
+    Ctx (s_fs s) -> chain (s_fs s) dr cs d -> Forall nm cs -> Forall nonul cs -> Forall nm pend -> Forall nonul pend ->
+    uncopied (s_parents s) = pend_paths cs pend ->
+    create_parent_dirs c o ow s = (s', r) ->
+    stays_ok d s s' r /\ (lok s -> lok s') /\ s_links s' = s_links s /\
+    (r = inl tt -> s_parents s' = allc (s_parents s) /\ exists d', chain (s_fs s') dr (cs ++ pend) d').
+  Proof.
+    intros C Hc H1 H2 H3 H4 Hu H. unfold create_parent_dirs in H. rewrite bind_run, get_parents_run in H. rewrite bind_run in H.
+    destruct (create_parents_go c o ow (s_parents s) [] s) as [s1 [ps'|e]] eqn:E1.
+    - destruct (create_parents_go_spec o ow _ [] cs d pend s s1 _ C Hc H1 H2 H3 H4 Hu E1) as (S1 & EL1 & P1).
+      destruct (P1 ps' eq_refl) as (-> & d' & Hd'). rewrite set_parents_run in H. injection H as <- <-.
+      destruct S1 as (C1 & A1 & L1 & K1 & Q1).
+      split; [split; auto; split; auto; split; auto|]. split; [exact L1|]. split; [exact EL1|].
+      intros _. split; [reflexivity|eauto].
+    - destruct (create_parents_go_spec o ow _ [] cs d pend s s1 _ C Hc H1 H2 H3 H4 Hu E1) as (S1 & EL1 & _).
+      injection H as <- <-. destruct S1 as (C1 & A1 & L1 & K1 & Q1).
+      split; [split; auto; split; auto; split; auto|]. split; [exact L1|]. split; [exact EL1|discriminate].
+  Qed.
+
+  (* ---- the loop over the children, with an invariant ---- *)
+  Lemma each_m_inv (I : cst -> Prop) g d :
+    (forall s, I s -> Ctx (s_fs s) /\ is_dir (s_fs s) d = true) ->
+    (forall n s s' r, okn n -> I s -> lok s -> g n s = (s', r) -> stays_ok d s s' r /\ (ok_res r -> I s')) ->
+    forall ns, Forall okn ns -> forall s s' r, I s -> lok s ->
+      each_m g ns s = (s', r) -> stays_ok d s s' r /\ (ok_res r -> I s').
+  Proof.
+    intros HI Hg ns Hall. induction Hall as [|n ns Hn Hns IH]; intros s s' r Is L H.
+    - cbn [each_m ret] in H. injection H as <- <-. split; auto. apply stays_stays_ok. apply stays_refl. apply HI; auto.
+    - cbn [each_m] in H. rewrite bind_run in H. destruct (HI s Is) as [C Hd].
       destruct (g n s) as [s1 [[]|e]] eqn:E1.
-      + assert (T : Tgt (s_fs s) cs1 d1 n) by (constructor; auto; apply Hn).
-        pose proof (Hg n s s1 _ Hn T L E1) as S1.
-        assert (Hd : is_dir (s_fs s) d1 = true) by (eapply chain_end_dir; eauto).
-        destruct S1 as (C1 & A1 & L1 & K1).
-        eapply (stays_ok_seq c f0 dr dcs d1 s s1 s' tt); auto; [split; auto|].
-        apply IH; auto.
-        * apply (A1 dr cs1 d1 []); auto. constructor; auto.
-        * apply L1; auto. exists tt. reflexivity.
-      + injection H as <- <-.
-        assert (T : Tgt (s_fs s) cs1 d1 n) by (constructor; auto; apply Hn).
-        eapply stays_ok_fail. eapply (Hg n s s1 _ Hn T L E1).
+      + destruct (Hg n s s1 _ Hn Is L E1) as (S1 & I1). specialize (I1 (ex_intro _ tt eq_refl)).
+        assert (L1 : lok s1) by (destruct S1 as (_ & _ & L1 & _); apply L1; auto; exists tt; reflexivity).
+        destruct (IH s1 s' r I1 L1 H) as (S2 & I2). split; auto.
+        eapply (stays_ok_seq c f0 dr dcs d s s1 s' tt); eauto.
+      + injection H as <- <-. destruct (Hg n s s1 _ Hn Is L E1) as (S1 & _). split; [|intros [a Ha]; discriminate].
+        eapply stays_ok_fail; eauto.
+  Qed.
+
+  Lemma lstat_opt_nd_pure p s s' r : lstat_opt_nd c p s = (s', r) ->
+    s_fs s' = s_fs s /\ s_links s' = s_links s /\ s_parents s' = s_parents s.
+  Proof.
+    unfold lstat_opt_nd. rewrite bind_run, sys_run. cbn [fst snd]. rewrite sys_lstat_fs.
+    destruct (snd (sys_lstat c (s_fs s) p)) as [|e|i n| | |]; try (intros H; inversion H; subst; auto; fail).
+    destruct e; intros H; inversion H; subst; auto.
   Qed.
 
   Lemma chain_last f cs d x d1 d' : chain f dr (cs ++ [x]) d1 -> chain f dr cs d' -> d' = d ->
@@ -120,155 +315,14 @@ Section Rec.
     rewrite (chain_fun _ _ _ _ P _ Hc) in Q. inversion Q as [|? ? i ? ? Bx Dx Rx]; subst. inversion Rx; subst. auto.
   Qed.
 
-  (* ---- copier.copy ---- *)
-  Lemma copy_rec_spec fuel : forall o src cs d x ow s s' r,
-    Tgt (s_fs s) cs d x -> lok s -> copy_rec fuel c o src (tpath cs x) ow s = (s', r) -> stays_ok d s s' r.
+  Lemma join2_names L n : Forall nm L -> nm n -> join2 (render L) n = render (L ++ [n]).
   Proof.
-    induction fuel as [|k IH]; intros o src cs d x ow s s' r T L H.
-    { cbn [copy_rec] in H. unfold fail in H. injection H as <- <-. apply stays_stays_ok, stays_refl. apply T. }
-    cbn [copy_rec] in H. rewrite bind_run, sys_run in H. cbn [fst snd] in H. rewrite sys_lstat_fs in H.
-    assert (Hd : is_dir (s_fs s) d = true) by (eapply tgt_dir; eauto).
-    assert (Hsame : forall s1 (r1 : unit + N), s_fs s1 = s_fs s -> s_links s1 = s_links s -> stays_ok d s s1 r1).
-    { intros s1 r1 E1 E2. apply stays_stays_ok. apply stays_same; auto. apply T. }
-    destruct (snd (sys_lstat c (s_fs s) src)) as [|e|ino fi| | |];
-      try (unfold fail in H; injection H as <- <-; apply Hsame; reflexivity).
-    rewrite bind_run, log_read_run in H. cbn [s_fs s_links s_reads] in H.
-    set (s1 := {| s_fs := s_fs s; s_links := s_links s; s_reads := ino :: s_reads s |}) in *.
-    assert (T1 : Tgt (s_fs s1) cs d x) by exact T.
-    assert (L1 : lok s1) by exact L.
-    rewrite bind_run in H.
-    destruct (prep_target c o (tpath cs x) fi s1) as [s2 [tfi|e]] eqn:E2.
-    2:{ injection H as <- <-. destruct (prep_target_spec s1 s2 _ cs d x o fi T1 E2) as (S2 & _).
-        apply stays_stays_ok. exact S2. }
-    destruct (prep_target_spec s1 s2 _ cs d x o fi T1 E2) as (S2 & P2).
-    assert (T2 : Tgt (s_fs s2) cs d x) by (eapply tgt_stays; eauto).
-    assert (L2 : lok s2) by (apply S2; auto).
-    (* everything below runs from s2 *)
-    eapply (stays_ok_pre c f0 dr dcs d s s2 s'); [exact Hd|exact S2|].
-    assert (Hd2 : is_dir (s_fs s2) d = true) by (eapply tgt_dir; eauto).
-    (* the common tail: finish_meta after a creation step *)
-    assert (Hfin : forall s3 (r3 : unit + N) i, stays_ok d s2 s3 r3 -> r3 = inl tt ->
-              names_ss (s_fs s3) d x i -> (kind_is_link fi = false -> FsP.is_link (s_fs s3) i = false) ->
-              forall s4 r4, finish_meta c o fi src (tpath cs x) s3 = (s4, r4) -> stays_ok d s2 s4 r4).
-    { intros s3 r3 i S3 -> Hn Hl s4 r4 H4.
-      assert (T3 : Tgt (s_fs s3) cs d x) by (destruct S3 as (C3 & A3 & _); eapply tgt_step; eauto).
-      pose proof (finish_meta_spec s3 s4 r4 cs d x i o fi src T3 Hn Hl H4) as M4.
-      eapply (stays_ok_seq c f0 dr dcs d s2 s3 s4 tt); auto. apply mstep_stays_ok. exact M4. }
-    destruct (i_kind fi) as [pp es|data|t|typ rdev] eqn:Ek.
-    - (* directory *)
-      assert (Hkd : kind_is_dir fi = true) by (unfold kind_is_dir; rewrite Ek; reflexivity).
-      rewrite bind_run in H.
-      destruct (copy_directory_only c (tpath cs x) fi ow s2) as [s3 [created|e]] eqn:E3.
-      2:{ injection H as <- <-. destruct (copy_directory_only_spec c f0 dr dcs s2 s3 _ cs d x fi ow T2 E3) as (S3 & _).
-          apply stays_stays_ok. exact S3. }
-      destruct (copy_directory_only_spec c f0 dr dcs s2 s3 _ cs d x fi ow T2 E3) as (S3 & EL3 & P3).
-      destruct (P3 created eq_refl) as (d1 & Hb1 & Hd1).
-      assert (T3 : Tgt (s_fs s3) cs d x) by (eapply tgt_stays; eauto).
-      assert (L3 : lok s3) by (apply S3; auto).
-      eapply (stays_ok_pre c f0 dr dcs d s2 s3 s'); [exact Hd2|exact S3|].
-      assert (Hd3 : is_dir (s_fs s3) d = true) by (eapply tgt_dir; eauto).
-      rewrite bind_run, sys_run in H. cbn [fst snd] in H. rewrite sys_readdir_fs in H.
-      assert (Hsame3 : forall s4 (r4 : unit + N), s_fs s4 = s_fs s3 -> s_links s4 = s_links s3 -> stays_ok d s3 s4 r4).
-      { intros s4 r4 G1 G2. apply stays_stays_ok. apply stays_same; auto. apply T3. }
-      destruct (snd (sys_readdir c (s_fs s3) src)) as [|e|i0 n0|b0|names|i0] eqn:Er;
-        try (unfold fail in H; injection H as <- <-; apply Hsame3; reflexivity).
-      pose proof (readdir_names c f0 dr (s_fs s3) src names (tgt_inv _ _ _ _ _ _ _ _ T3) Er) as Hnames.
-      rewrite bind_run in H. unfold get_fs at 1 in H. cbn [s_fs] in H.
-      rewrite bind_run in H.
-      set (s4 := {| s_fs := s_fs s3; s_links := s_links s3; s_reads := s_reads s3 |}) in H.
-      (* the optional log entry does not change the file system *)
-      assert (Hlog : exists s5, (match resolve_ino c (s_fs s3) src true with inl di => log_read di | inr _ => ret tt end) s4 = (s5, inl tt)
-                                /\ s_fs s5 = s_fs s3 /\ s_links s5 = s_links s3).
-      { destruct (resolve_ino c (s_fs s3) src true); [rewrite log_read_run|cbn [ret]];
-          eexists; (split; [reflexivity|split; reflexivity]). }
-      destruct Hlog as (s5 & E5 & F5 & EL5). rewrite E5 in H.
-      assert (T5 : Tgt (s_fs s5) cs d x) by (rewrite F5; auto).
-      assert (L5 : lok s5) by (unfold CopyFsP.lok; rewrite F5, EL5; exact L3).
-      eapply (stays_ok_pre c f0 dr dcs d s3 s5 s'); [exact Hd3|apply stays_same; auto; apply T3|].
-      assert (Hc5 : chain (s_fs s5) dr (cs ++ [x]) d1).
-      { rewrite F5. eapply chain_snoc; eauto. apply T3. }
-      assert (Hq5 : chain (s_fs s5) d [x] d1).
-      { rewrite F5. econstructor; eauto. constructor; auto. }
-      assert (Hj : forall n, okn n -> join2 (tpath cs x) n = tpath (cs ++ [x]) n).
-      { intros n [Hn1 _]. apply tpath_join; [apply (cx_dcs _ _ _ _ _ (tg_ctx _ _ _ _ _ _ _ _ T))|apply T|apply T|exact Hn1]. }
-      rewrite bind_run in H.
-      destruct (each_m (fun n => copy_rec k c o (join2 src n) (join2 (tpath cs x) n) true) (sorted_names names) s5)
-        as [s6 [[]|e]] eqn:E6.
-      2:{ injection H as <- <-. eapply stays_ok_below; [exact Hq5|]. eapply stays_ok_fail.
-          eapply (each_m_spec _ d1 (cs ++ [x])); try exact E6; auto.
-          - intros n sa sb rb Hn Ta La Ha. cbv beta in Ha.
-            rewrite (Hj n Hn) in Ha. eapply IH; eauto.
-          - apply sorted_names_forall; auto.
-          - apply T5.
-          - apply Forall_app; split; [apply T|constructor; [apply T|constructor]].
-          - apply Forall_app; split; [apply T|constructor; [apply T|constructor]]. }
-      assert (S6 : stays_ok d1 s5 s6 (@inl unit N tt)).
-      { eapply (each_m_spec _ d1 (cs ++ [x])); try exact E6; auto.
-        - intros n sa sb rb Hn Ta La Ha. cbv beta in Ha.
-          rewrite (Hj n Hn) in Ha. eapply IH; eauto.
-        - apply sorted_names_forall; auto.
-        - apply T5.
-        - apply Forall_app; split; [apply T|constructor; [apply T|constructor]].
-        - apply Forall_app; split; [apply T|constructor; [apply T|constructor]]. }
-      assert (S6d : stays_ok d s5 s6 (@inl unit N tt)) by (eapply stays_ok_below; eauto).
-      assert (Hd5 : is_dir (s_fs s5) d = true) by (eapply tgt_dir; eauto).
-      eapply (stays_ok_seq c f0 dr dcs d s5 s6 s' tt); [exact Hd5|exact S6d|].
-      destruct S6 as (C6 & A6 & L6 & K6).
-      assert (T6 : Tgt (s_fs s6) cs d x) by (destruct S6d as (? & A6d & _); eapply tgt_step; eauto).
-      assert (Hc6 : chain (s_fs s6) dr (cs ++ [x]) d1).
-      { apply (A6 dr (cs ++ [x]) d1 []); auto. apply chain_nil. rewrite F5. exact Hd1. }
-      destruct (chain_last (s_fs s6) cs d x d1 d Hc6 (tg_chain _ _ _ _ _ _ _ _ T6) eq_refl) as [Hb6 Hi6].
-      assert (Hn6 : names_ss (s_fs s6) d x d1).
-      { split; auto. eapply (chain_SS f0 dr (s_fs s6)); [eapply tgt_inv; eauto|exact Hc6|eapply ctx_dr_SS; apply T6]. }
-      assert (Hl6 : FsP.is_link (s_fs s6) d1 = false).
-      { unfold FsP.is_link. unfold is_dir, dir_of in Hi6. destruct (get (s_fs s6) d1) as [[[? ?|?|?|? ?] ?]|]; auto; discriminate. }
-      destruct (ow || created).
-      + apply mstep_stays_ok. eapply finish_meta_spec; eauto.
-      + destruct tfi.
-        * apply mstep_stays_ok. eapply copy_file_timestamp_spec; eauto.
-        * cbn [ret] in H. injection H as <- <-. apply stays_stays_ok, stays_refl. apply T6.
-    - (* regular file *)
-      assert (Hkd : kind_is_dir fi = false) by (unfold kind_is_dir; rewrite Ek; reflexivity).
-      assert (Hkl : kind_is_link fi = false) by (unfold kind_is_link; rewrite Ek; reflexivity).
-      pose proof (P2 tfi eq_refl Hkd) as Hab.
-      rewrite bind_run in H.
-      destruct (copy_regular c src (tpath cs x) ino s2) as [s3 [[]|e]] eqn:E3.
-      + destruct (copy_regular_spec c f0 dr dcs s2 s3 _ cs d x src ino T2 Hab L2 E3) as (S3 & P3).
-        destruct (P3 eq_refl) as (i & Hn & _ & Hl).
-        eapply (Hfin s3 _ i S3 eq_refl Hn); eauto.
-      + injection H as <- <-. eapply (copy_regular_spec c f0 dr dcs s2 s3 _ cs d x src ino T2 Hab L2 E3).
-    - (* symlink *)
-      assert (Hkl : kind_is_link fi = true) by (unfold kind_is_link; rewrite Ek; reflexivity).
-      rewrite bind_run, sys_run in H. cbn [fst snd] in H. rewrite sys_readlink_fs in H.
-      assert (Hsame2 : forall s3 (r3 : unit + N), s_fs s3 = s_fs s2 -> s_links s3 = s_links s2 -> stays_ok d s2 s3 r3).
-      { intros s3 r3 G1 G2. apply stays_stays_ok. apply stays_same; auto. apply T2. }
-      destruct (snd (sys_readlink c (s_fs s2) src)) as [|e|i0 n0|tgt|l0|i0];
-        try (unfold fail in H; injection H as <- <-; apply Hsame2; reflexivity).
-      set (s3 := {| s_fs := s_fs s2; s_links := s_links s2; s_reads := s_reads s2 |}) in H.
-      assert (T3 : Tgt (s_fs s3) cs d x) by exact T2.
-      rewrite bind_run, sys_run in H. cbn [fst snd] in H.
-      destruct (sys_symlink c (s_fs s3) tgt (tpath cs x)) as [f4 r4] eqn:E4. cbn [fst snd] in H.
-      pose proof (g_symlink c f0 dr dcs _ cs d x _ f4 r4 T3 E4) as G4.
-      pose proof (k_symlink c f0 dr dcs _ cs d x _ f4 r4 T3 E4) as K4.
-      destruct (t_symlink c f0 dr dcs _ cs d x _ f4 r4 T3 E4) as (C4 & A4 & P4).
-      fold (mk s3 f4) in H.
-      assert (S4 : stays d s2 (mk s3 f4)).
-      { destruct (stays_grows c f0 dr dcs d s3 f4 C4 A4 G4 K4) as (X1 & X2 & X3 & X4). split; auto. }
-      rewrite bind_run, expect_ok_run in H.
-      destruct P4 as [[e ->]|[-> Hc]].
-      + injection H as <- <-. apply stays_stays_ok. exact S4.
-      + eapply (Hfin (mk s3 f4) (inl tt) (f_next (s_fs s3))); eauto.
-        * apply stays_stays_ok. exact S4.
-        * split; [apply Hc|right; apply Hc].
-        * intros E. congruence.
-    - (* device, fifo, socket *)
-      assert (Hkl : kind_is_link fi = false) by (unfold kind_is_link; rewrite Ek; reflexivity).
-      rewrite bind_run in H.
-      destruct (copy_device c (tpath cs x) fi s2) as [s3 [[]|e]] eqn:E3.
-      + destruct (copy_device_spec c f0 dr dcs s2 s3 _ cs d x fi T2 E3) as (S3 & _ & P3).
-        destruct (P3 eq_refl) as (i & Hn & _ & Hl).
-        eapply (Hfin s3 (inl tt) i); eauto. apply stays_stays_ok. exact S3.
-      + injection H as <- <-. destruct (copy_device_spec c f0 dr dcs s2 s3 _ cs d x fi T2 E3) as (S3 & _).
-        apply stays_stays_ok. exact S3.
+    intros HL Hn. rewrite join2_render by auto. rewrite stk_from_single by (destruct Hn; auto).
+    rewrite cstep_normal by (destruct Hn; auto). simpl rev. rewrite rev_involutive. reflexivity.
   Qed.
+
+  (* what a copier.copy leaves of the stack: untouched, or every pending parent made *)
+  Definition stack_post (cs pend : list bytes) (s s' : cst) : Prop :=
+    s_parents s' = s_parents s \/
+    (s_parents s' = allc (s_parents s) /\ exists d', chain (s_fs s') dr (cs ++ pend) d').
 End Rec.
